@@ -121,3 +121,181 @@ class _:
             & (S.ival(result.ack) == S.ival(ghost.h.ack)) & S.eq(result.pkt_type.value, ghost.h.pkt_type.value)
             & S.eq(result.length, ghost.h.length) & S.eq(result.count, ghost.h.count) & S.eq(result.ack_bits, ghost.h.ack_bits),
     }
+
+
+# ------------------------------------------------------------------------------------------ Packet.create / to_bytes / sizes
+from pyvc import lib as _lib
+
+ARR = z3.ArraySort(z3.IntSort(), z3.IntSort())
+SUMLEN = z3.Function('sumlen_prefix', ARR, z3.IntSort(), z3.IntSort())       # sum of the payload lengths of the first i messages
+FLAT = z3.Function('flat_msgs', ARR, z3.IntSort(), BytesSort)                # multi-message encoding of the first i messages
+
+
+def enc5(m):
+    """one message inside a multi-message datagram: be16(len) be16(seq) u8(type) payload"""
+    return S.concat(S.pk('H', S.len(m.payload)), S.pk('H', S.ival(m.seq)), S.pk('B', m.type.value), m.payload)
+
+
+_lib.define_measure('sumlen', z3.IntSort(), lambda ip, el: ops.blen(S.term(el.payload)), prefix=SUMLEN)
+_lib.define_measure('flat', BytesSort, lambda ip, el: S.term(enc5(el)), prefix=FLAT)
+_lib.define_measure('concat', BytesSort, lambda ip, el: S.term(el))                                # concatenation of a list of bytes
+_lib.define_measure('bytelen', z3.IntSort(), lambda ip, el: ops.blen(S.term(el)))                # total length of a list of bytes
+
+
+def overhead(n):
+    return S.ite(n == 0, 0, S.ite(n == 1, 2, 5 * n))
+
+
+def msg_list(E, name='msgs'):
+    declare_pending_message(E)
+    msgs = E.symseq(name, E.kind('obj', PM))
+    E.measure(msgs, 'sumlen')
+    E.measure(msgs, 'flat')
+    return msgs
+
+
+def unfold_at(ip, msgs, i):
+    """definitions of the spec prefix functions, instantiated at position i: F(arr, i+1) = F(arr, i) (+) w(arr[i])"""
+    m = ip.wrap(z3.Select(msgs.arr, i), msgs.elem)
+    ip.ctx.assume(FLAT(msgs.arr, i + 1) == S.term(S.concat(Sym(FLAT(msgs.arr, i), 'bytes'), enc5(m))))
+    ip.ctx.assume(SUMLEN(msgs.arr, i + 1) == SUMLEN(msgs.arr, i) + ops.blen(S.term(m.payload)))
+
+
+def create_ghost_post(ip, frame, env):
+    unfold_at(ip, env['_it'], S.term(env['_i'], 'int') - 1)
+
+
+def bytes_list(ip, v, name):
+    from pyvc.heap import fresh_like
+    s = SymSeq(z3.K(z3.IntSort(), z3.Empty(BytesSort)), z3.IntVal(0), Kind('bytes'))
+    s.meas['concat'] = z3.Empty(BytesSort)
+    s.meas['bytelen'] = z3.IntVal(0)
+    return fresh_like(ip, s, name)
+
+
+@contract('connection.Packet.create', props=['C09', 'C06'])
+class _:
+    def setup(E):
+        h = make_header(E, 'hdr')
+        msgs = msg_list(E)
+        # the n = 1 branch reads msgs[0]: unfold the spec functions there
+        unfold_at(E.ip, msgs, z3.IntVal(0))
+        return dict(hdr=h, msgs=msgs)
+    loops = {0: LoopSpec(
+        invariant={
+            'chunks-are-the-encoded-prefix': lambda payload, msgs, _i: S.bool(S.term(S.meas(payload, 'concat')) == FLAT(msgs.arr, S.term(_i, 'int'))),
+            'chunk-lengths': lambda payload, msgs, _i: S.bool(S.term(S.meas(payload, 'bytelen'), 'int') == 5 * S.term(_i, 'int') + SUMLEN(msgs.arr, S.term(_i, 'int'))),
+        },
+        havoc_kinds={'payload': bytes_list}, ghost_post=create_ghost_post, label='encode-loop')}
+    ensures = {
+        'count-describes-the-messages': lambda result, msgs: S.eq(result.hdr.count, S.len(msgs)),
+        'length-describes-the-payload': lambda result: S.eq(result.hdr.length, S.len(result.msg)),
+        'payload-bytes': lambda result, msgs, E: S.ite(
+            S.len(msgs) == 0, S.eq(result.msg, b''),
+            S.ite(S.len(msgs) == 1, S.eq(result.msg, S.concat(S.pk('H', S.ival(E.elem(msgs, 0).seq)), E.elem(msgs, 0).payload)),
+                  S.bool(S.term(result.msg) == FLAT(msgs.arr, msgs.n)))),
+        'payload-size': lambda result, msgs: S.len(result.msg) == overhead(S.len(msgs)) + S.meas(msgs, 'sumlen'),
+        'same-header-object-and-messages': lambda result, hdr, msgs: S.same(result.hdr, hdr) & S.same(result.msgs, msgs),
+    }
+    modifies = ['hdr.length', 'hdr.count']
+
+
+
+
+def make_packet(E, name='self'):
+    h = make_header(E, name + '_hdr')
+    return E.obj(PKT, tag=name, hdr=h, msg=E.bytes(name + '_msg', maxlen=65535), msgs=E.list([]))
+
+
+for _k in ('key', 'no-key'):
+    @contract('connection.Packet.to_bytes', props=['C09', 'C03'], variant=_k)
+    class _:
+        """C03: after key agreement everything but the signed server-hello is AES-GCM ciphertext under the session key,
+        nonce = first 12 header bytes, the whole 20-byte header authenticated; C09: sizes"""
+        def setup(E, _k=_k):
+            return dict(self=make_packet(E), key=E.bytes('key', length=16) if _k == 'key' else None)
+        ensures = {
+            'sealed-unless-server-hello-or-keyless': lambda self, key, result: sealed_clause(self, key, result),
+            'size-as-announced-by-total_size': lambda self, key, result: S.len(result) == S.len(self.msg) + 20 + S.ite(
+                S.Not(S.is_none(key)) & S.Not(S.enum_is(self.hdr.pkt_type, member_(self, 'SERVER_HELLO'))), 16, 4),
+        }
+        modifies = []
+        returns = 'bytes'
+
+
+def sealed_clause(self, key, result):
+    clear = S.eq(result, S.concat(header_bytes(self.hdr), self.msg, S.pk('L', crc(S.concat(header_bytes(self.hdr), self.msg)))))
+    if key is None:
+        return clear
+    sealed = S.bool(S.term(result) == S.term(S.concat(header_bytes(self.hdr), gcm(key, header_bytes(self.hdr), self.msg))))
+    return S.ite(S.Not(S.enum_is(self.hdr.pkt_type, member_(self, 'SERVER_HELLO'))), sealed, clear)
+
+
+def member_(pkt, name):
+    return pkt.hdr.pkt_type.cls.class_attrs[name]
+
+
+def gcm(key, hdr20, msg):
+    from pyvc import libspec
+    return Sym(libspec.ENC(S.term(key), S.term(S.slice(hdr20, 0, 12)), S.term(hdr20), S.term(msg)), 'bytes')
+
+
+def crc(data):
+    from pyvc import libspec
+    return Sym(libspec.CRC(S.term(data)), 'int')
+
+
+for _k in ('key', 'no-key'):
+    @contract('connection.Packet.total_size', props=['C09'], variant=_k)
+    class _:
+        def setup(E, _k=_k):
+            return dict(self=make_packet(E), key=E.bytes('key', length=16) if _k == 'key' else None)
+        ensures = {
+            'size': lambda self, key, result: result == S.len(self.msg) + 20 + S.ite(
+                S.Not(S.is_none(key)) & S.Not(S.enum_is(self.hdr.pkt_type, member_(self, 'SERVER_HELLO'))), 16, 4),
+        }
+        modifies = []
+        returns = 'int'
+
+
+@contract('connection.Packet.overhead', props=['C09'])
+class _:
+    def setup(E):
+        return dict(n=E.int('n', lo=0))
+    ensures = {'overhead': lambda n, result: result == overhead(n)}
+    returns = 'int'
+
+
+def limits(mtu, g):
+    """Limits: the size constants as functions of the MTU (g: attribute getter)"""
+    mp = mtu - 28 - 20 - 16 - 2
+    return (S.eq(g('MTU'), mtu) & S.eq(g('MAX_SIZE'), mtu - 28) & S.eq(g('MAX_PAYLOAD_SIZE'), mp)
+            & S.eq(g('MAX_SIZE_CRC'), mtu - 28 - 16 + 4) & S.eq(g('MAX_FRAGMENT_SIZE'), S.ite(mp >= 1030, 1024, mp - 6))
+            & (g('RECV_SIZE') >= mtu - 28))
+
+
+def set_limits(E, mtu=None):
+    """Packet's class attributes for a symbolic MTU in the supported range 512..1500"""
+    mtu = mtu if mtu is not None else E.int('MTU', lo=512, hi=1500)
+    mp = mtu - 28 - 20 - 16 - 2
+    for a, v in (('MTU', mtu), ('MAX_SIZE', mtu - 28), ('MAX_PAYLOAD_SIZE', mp), ('MAX_SIZE_CRC', mtu - 28 - 16 + 4),
+                 ('MAX_FRAGMENT_SIZE', S.ite(mp >= 1030, 1024, mp - 6)), ('RECV_SIZE', mtu + 512)):
+        E.set_class_attr(PKT, a, v)
+    return mtu
+
+
+@contract('connection.Packet.setMTU', props=['C09'])
+class _:
+    def setup(E):
+        set_limits(E, E.int('old_MTU', lo=512, hi=1500))
+        return dict(mtu=E.int('mtu', lo=512, hi=1500))
+    ensures = {
+        'limits': lambda mtu, E: limits(mtu, lambda a: E.ip.class_attr(E.cls(PKT), a)[1]),
+    }
+    modifies = ['class:connection.Packet.' + a for a in ('MTU', 'MAX_SIZE', 'MAX_PAYLOAD_SIZE', 'MAX_SIZE_CRC', 'MAX_FRAGMENT_SIZE', 'RECV_SIZE')]
+
+
+@lemma('limits-of-the-class-body', props=['C09'])
+def _limits_default(E):
+    """the constants written in the class body satisfy Limits for the default MTU 1500"""
+    return {'default-constants': limits(1500, lambda a: E.ip.class_attr(E.cls(PKT), a)[1])}
